@@ -149,4 +149,23 @@ theorem accepted_batch_every_amount (c : Ctx) (hp p : String) (n : Nat) (sec : S
   have hv := accepted_batch_entries_validated c hp p n sec hH hsec hnadv hE ha i hi
   exact entry_amount_in_field_at { c with recv := elemPath p i } (am i) (hamt i hi) hv
 
+
+/-- C03, end to end — for every file value of standard batches (any number of batches, any sizes) on which
+`File.ValidateWith(opts)` — translated from the source on this run — returns nil without `SkipAll`: every entry of every
+batch was accepted by `EntryDetail.Validate()` -/
+theorem accepted_file_every_entry (c : Ctx) (bp : String) (nb : Nat)
+    (hB : lookup c.fields (joinPath c.recv "Batches") = .lst bp nb)
+    (hskip : hasFlag c "param" "SkipAll" = false)
+    (hnadv : (exec v_File_IsADV c []).2 = .ret (.bool false))
+    (ha : run c v_File_ValidateWith = .accept)
+    (i : Nat) (hi : i < nb) (T : String) (hT : lookup c.fields (joinPath (elemPath bp i) "$type") = .str T.toList)
+    (hTn : T ≠ "BatchADV")
+    (hp p : String) (n : Nat) (sec : Str)
+    (hH : lookup c.fields (joinPath (elemPath bp i) "Header") = .ref hp)
+    (hsec : lookup c.fields (joinPath hp "StandardEntryClassCode") = .str sec) (hsn : sec ≠ ['A', 'D', 'V'])
+    (hE : lookup c.fields (joinPath (elemPath bp i) "Entries") = .lst p n) :
+    ∀ j, j < n → run { c with recv := elemPath p j } v_EntryDetail_Validate = .accept := by
+  have hv := Ach.Props.AcceptedFileBatches.accepted_file_batches_verified c bp nb hB hskip hnadv ha i hi T hT hTn
+  exact accepted_batch_entries_validated { c with recv := elemPath bp i } hp p n sec hH hsec hsn hE hv
+
 end Ach.Props.AcceptedEntries
